@@ -352,6 +352,8 @@ func checkC10(c *Ctx) {
 	}
 	// a decoded descriptor shares no memory with the buffer it was read from
 	c.ruleNoAlias("G9.copy")
+	// Unmarshal gives its receiver what was decoded
+	c.ruleDecodeReplaces("G14.replace", func(f *ssa.Function) bool { return strings.Contains(name(f), "EFIVariableAuthentication2") })
 	c.ruleAppendOnly("G15.append", "efi/signature.WriteWinCertificate", "efi/signature.WriteWinCertificateUEFIGUID", "efi/signature.WriteEFIVariableAuthencation2")
 	c.R.Floor("G15.append", 3)
 	c.ruleShortCopy("G16.short", "efi/signature.ReadWinCertificate", "efi/signature.ReadWinCertificateUEFIGUID", "efi/signature.ReadEFIVariableAuthencation2")
